@@ -267,7 +267,9 @@ def main():
              'behind the real ASGI adapter on a virtual loop (vf/vloop.py, '
              'vf/sima.py) or behind the real aiohttp adapter and web server '
              'over an in-memory transport speaking HTTP/1.1 and RFC 6455 '
-             'bytes (vf/simh.py), driven by a reactive reference client '
+             'bytes (vf/simh.py), or behind the real tornado adapter, HTTP '
+             'server and WebSocket implementation over an in-memory IOStream '
+             '(vf/simn.py), driven by a reactive reference client '
              '(vf/hist.py)'},
             {'name': 'cliT+cliA', 'path': 'vf/cli.py',
              'serves_properties': ['C08', 'C09'],
@@ -276,7 +278,9 @@ def main():
             {'name': 'pairs', 'path': 'vf/cli.py',
              'serves_properties': ['C10'],
              'kind_free_text': 'real client <-> real server, incl. bridge '
-             '(asyncio loop as a scheduler task)'},
+             '(asyncio loop as a scheduler task), the server also behind the '
+             'real aiohttp / tornado web servers, the client also over a '
+             'real aiohttp.ClientSession'},
             {'name': 'mw', 'path': 'vf/checks/c20.py',
              'serves_properties': ['C20'],
              'kind_free_text': 'gateway middleware with spies and audit hook'},
